@@ -1,154 +1,116 @@
 //@ unit cm_stateset
-//@ props C07 C08 C01
+//@ props C01
 //@ kind W
-//@ def all NARR=2
-//@ cbmc all --unwind 34 --unwinding-assertions
+//@ def all NCH=2
+//@ def quick CMSTATE_BITFIELD_CHUNK=128 CMSTATE_BITFIELD_INT32_SIZE=(128/32)
+//@ note quick tier: the chunk size of the dynamic representation (CMSTATE_BITFIELD_CHUNK = 1024 bits, CMSTATE_BITFIELD_INT32_SIZE = 32 words in /repo; the header requires a multiple of 128) is rebound to 128 bits / 4 words by -D (the copied #defines are #ifndef-guarded); the code is parametric in it; the thorough tier uses the real 1024
+//@ cbmc quick --unwind 6 --unwinding-assertions
+//@ cbmc thorough --unwind 34 --unwinding-assertions
 //@ entry h_cm_stateset
-//@ note W: CMStateSet (the position sets of the followpos construction) as a bit set: setBit / getBit / zeroBits / isEmpty / operator|= / operator== / getBitCountInRange on `this` = harness object A and operand B, both representations: cached (fBitCount <= 128: four words) and dynamic (fBitCount <= NARR*1024: NARR on-demand chunks of CMSTATE_BITFIELD_INT32_SIZE words, real chunk size), loops fully unwound
-//@ note abstraction function written from the member documentation: bit i of a cached set is bit i%32 of fBits[i/32]; of a dynamic set bit i%32 of word (i%1024)/32 of chunk fBitArray[i/1024], an unallocated chunk (null) holds no bits
-//@ note the portable branch is verified: the #ifdef XERCES_HAVE_SSE2_INTRINSIC branches (taken in the pinned build when the CPU has SSE2) are not in the C subset
-//@ note chunk allocation (MemoryManager::allocate / deallocate) hands out / takes back separate harness objects of exactly one chunk; references `XMLInt32*& x = slot` that are only read become pointer copies
-//@ note getBitCountInRange is checked for memory safety only: it has no documented meaning (word-granular in the cached form, chunk-granular in the dynamic form) and its only caller (buildDFA) uses it as a cost heuristic
-//@ note NOT in scope: constructors / destructor / operator= / hashCode, CMStateSetEnumerator, buildDFA / followpos construction (the users of this class)
+//@ note W: complete for every set in the cached representation (1..128 bits, every content of the 4 words) and every set in the dynamic representation with up to NCH = 2 chunks (129..2048 bits, each chunk absent or present with any content); every bit index (also out of range); loops fully unwound (4 words, NCH chunks x 32 words), unwinding assertions on
+//@ note the non-SSE2 paths are verified (XERCES_HAVE_SSE2_INTRINSIC undefined: the #ifdef blocks inside the bodies are removed by the C preprocessor); the SSE2 paths use compiler intrinsics and are outside the subset
+//@ note stubs (trusted): fMemoryManager->allocate for a chunk = a fresh 32-word array from a harness pool (never fails), deallocate = no-op; abstraction function SPEC_BIT = the representation as described in CMStateSet.hpp (word g/32, bit g%32; dynamic: chunk g/1024, absent chunk = all zero)
 #define VERIF_DEFINE_GHOSTS
 #include "verif_prelude.h"
 //@ define src/xercesc/validators/common/CMStateSet.hpp CMSTATE_CACHED_INT32_SIZE
 //@ define src/xercesc/validators/common/CMStateSet.hpp CMSTATE_BITFIELD_CHUNK
 //@ define src/xercesc/validators/common/CMStateSet.hpp CMSTATE_BITFIELD_INT32_SIZE
-//@ struct src/xercesc/validators/common/CMStateSet.hpp CMDynamicBuffer self=none
-//@ struct src/xercesc/validators/common/CMStateSet.hpp CMStateSet self=none structs=CMDynamicBuffer
-typedef struct CMStateSet CMStateSet; typedef struct CMDynamicBuffer CMDynamicBuffer;
+//@ struct src/xercesc/validators/common/CMStateSet.hpp CMDynamicBuffer self=none plain
+typedef struct CMDynamicBuffer CMDynamicBuffer;
+//@ struct src/xercesc/validators/common/CMStateSet.hpp CMStateSet only=auto structs=CMDynamicBuffer
 
-/* this = A, the operand = B; their dynamic buffers, chunk-pointer arrays and chunks are separate harness objects */
-struct CMStateSet A, B; struct CMDynamicBuffer DA, DB;
-struct { XMLInt32 *a[NARR]; } ARRA, ARRB;
-struct CHK { XMLInt32 w[CMSTATE_BITFIELD_INT32_SIZE]; };
-struct CHK CA0, CA1, CB0, CB1, CN0, CN1;       /* CN*: chunks handed out by allocate */
-int NALLOC, NFREE, ALLOC_BAD, FREE_BAD;
-static void* CH_alloc(XMLSize_t n) { if (n != sizeof(struct CHK) || NALLOC >= 2) { ALLOC_BAD = 1; return (void*)CN0.w; } return NALLOC++ == 0 ? (void*)CN0.w : (void*)CN1.w; }
-static void CH_free(void *p) { if (!p) FREE_BAD = 1; NFREE++; }
+struct { XMLInt32 w[CMSTATE_BITFIELD_INT32_SIZE]; } POOL[NCH + 1]; XMLSize_t POOL_USED;
+static void *VERIF_allocate(XMLSize_t n)
+{
+  VERIF_ASSUME(n == sizeof(POOL[0].w) && POOL_USED <= NCH);
+  return POOL[POOL_USED++].w;
+}
+static void VERIF_deallocate(void *p) { }
 
 /*@extract src/xercesc/validators/common/CMStateSet.hpp CMStateSet::allocateChunk
 inclass
-sub (?<![\w.>])fDynamicBuffer\b => A.fDynamicBuffer
-sub A\.fDynamicBuffer->fMemoryManager->allocate\( => CH_alloc(
+static
+sub fDynamicBuffer->fMemoryManager->allocate => VERIF_allocate
 @*/
 /*@extract src/xercesc/validators/common/CMStateSet.hpp CMStateSet::deallocateChunk
 inclass
-sub (?<![\w.>])fDynamicBuffer\b => A.fDynamicBuffer
-sub A\.fDynamicBuffer->fMemoryManager->deallocate\( => CH_free(
-@*/
-/*@extract src/xercesc/validators/common/CMStateSet.hpp CMStateSet::setBit
-inclass
-call allocateChunk => CMStateSet_allocateChunk
-sub (?<![\w.>])(fBits|fBitCount|fDynamicBuffer)\b => A.\1
+static
+sub fDynamicBuffer->fMemoryManager->deallocate => VERIF_deallocate
 @*/
 /*@extract src/xercesc/validators/common/CMStateSet.hpp CMStateSet::getBit
 inclass
 ret false
-sub (?<![\w.>])(fBits|fBitCount|fDynamicBuffer)\b => A.\1
+@*/
+/*@extract src/xercesc/validators/common/CMStateSet.hpp CMStateSet::setBit
+inclass
+call allocateChunk => CMStateSet_allocateChunk
 @*/
 /*@extract src/xercesc/validators/common/CMStateSet.hpp CMStateSet::zeroBits
 inclass
 call deallocateChunk => CMStateSet_deallocateChunk
-sub (?<![\w.>])(fBits|fBitCount|fDynamicBuffer)\b => A.\1
 @*/
 /*@extract src/xercesc/validators/common/CMStateSet.hpp CMStateSet::isEmpty
 inclass
-sub (?<![\w.>])(fBits|fBitCount|fDynamicBuffer)\b => A.\1
 @*/
-/*@extract src/xercesc/validators/common/CMStateSet.hpp CMStateSet::getBitCountInRange
+/*@extract src/xercesc/validators/common/CMStateSet.hpp CMStateSet::hashCode
 inclass
-sub (?<![\w.>])(fBits|fBitCount|fDynamicBuffer)\b => A.\1
-@*/
-/*@extract src/xercesc/validators/common/CMStateSet.hpp CMStateSet::operator|=
-as CMStateSet_orAssign
-inclass
-call allocateChunk => CMStateSet_allocateChunk
-sub XMLInt32 \*& other = => XMLInt32 * other =
-sub XMLInt32\*& mine = => XMLInt32* mine =
-sub \bsetToOr\. => B.
-sub (?<![\w.>])(fBits|fBitCount|fDynamicBuffer)\b => A.\1
-@*/
-/*@extract src/xercesc/validators/common/CMStateSet.hpp CMStateSet::operator==
-as CMStateSet_equals
-inclass
-sub XMLInt32 \*& other = => XMLInt32 * other =
-sub \*& mine = => * mine =
-sub \bsetToCompare\. => B.
-sub (?<![\w.>])(fBits|fBitCount|fDynamicBuffer)\b => A.\1
 @*/
 
-/* abstraction function: is bit i in the set? */
-static int abs_bit(const struct CMStateSet *s, XMLSize_t i)
+struct CMDynamicBuffer DYN; XMLInt32 *BITARR[NCH];
+struct { struct { XMLInt32 w[CMSTATE_BITFIELD_INT32_SIZE]; } c[NCH]; } CH;
+/* abstraction function: is bit g in the set (g < fBitCount) */
+static int SPEC_BIT(XMLSize_t g)
 {
-  if (!s->fDynamicBuffer) return (((XMLUInt32)s->fBits[i / 32]) >> (i % 32)) & 1;
-  const XMLInt32 *c = s->fDynamicBuffer->fBitArray[i / CMSTATE_BITFIELD_CHUNK];
-  return c ? (((XMLUInt32)c[(i % CMSTATE_BITFIELD_CHUNK) / 32]) >> (i % 32)) & 1 : 0;
-}
-static int abs_empty(const struct CMStateSet *s)
-{
-  XMLUInt32 any = 0;
-  if (!s->fDynamicBuffer) { for (int k = 0; k < CMSTATE_CACHED_INT32_SIZE; k++) any |= (XMLUInt32)s->fBits[k]; return any == 0; }
-  for (XMLSize_t a = 0; a < NARR; a++) if (a < s->fDynamicBuffer->fArraySize && s->fDynamicBuffer->fBitArray[a])
-    for (int k = 0; k < CMSTATE_BITFIELD_INT32_SIZE; k++) any |= (XMLUInt32)s->fDynamicBuffer->fBitArray[a][k];
-  return any == 0;
-}
-
-/* representation invariant + a fresh arbitrary set of `bits` bits in (s, d, arr, c0, c1) */
-static void mk_set(struct CMStateSet *s, struct CMDynamicBuffer *d, XMLInt32 **arr, struct CHK *c0, struct CHK *c1, XMLSize_t bits, _Bool has0, _Bool has1)
-{
-  s->fBitCount = bits;
-  if (bits <= CMSTATE_CACHED_INT32_SIZE * 32) { s->fDynamicBuffer = 0; return; }
-  s->fDynamicBuffer = d;
-  d->fArraySize = bits / CMSTATE_BITFIELD_CHUNK + ((bits % CMSTATE_BITFIELD_CHUNK) ? 1 : 0);
-  /* the chunk-pointer array is END-aligned: exactly fArraySize entries */
-  d->fBitArray = arr + (NARR - d->fArraySize);
-  arr[NARR - 1] = has0 ? c0->w : (XMLInt32*)0;
-  if (NARR >= 2) arr[NARR - 2] = has1 ? c1->w : (XMLInt32*)0;
+  if (fDynamicBuffer == 0) return (int)(((XMLUInt32)fBits[g / 32] >> (g % 32)) & 1u);
+  XMLInt32 *c = fDynamicBuffer->fBitArray[g / CMSTATE_BITFIELD_CHUNK];
+  if (c == 0) return 0;
+  return (int)(((XMLUInt32)c[(g % CMSTATE_BITFIELD_CHUNK) / 32] >> (g % 32)) & 1u);
 }
 
 void h_cm_stateset(void)
 {
-  XMLSize_t bits, b, G, start, end; _Bool a0, a1, b0, b1; int op;
-  VERIF_INPUT(A); VERIF_INPUT(B); VERIF_INPUT(CA0); VERIF_INPUT(CA1); VERIF_INPUT(CB0); VERIF_INPUT(CB1); VERIF_INPUT(CN0); VERIF_INPUT(CN1);
-  VERIF_INPUT(bits); VERIF_INPUT(b); VERIF_INPUT(G); VERIF_INPUT(start); VERIF_INPUT(end); VERIF_INPUT(op);
-  VERIF_INPUT(a0); VERIF_INPUT(a1); VERIF_INPUT(b0); VERIF_INPUT(b1);
-  VERIF_ASSUME(bits >= 1 && bits <= NARR * CMSTATE_BITFIELD_CHUNK);
-  VERIF_ASSUME(G < bits);                    /* ghost index: any bit position */
-  VERIF_ASSUME(op >= 0 && op <= 6);
-  mk_set(&A, &DA, ARRA.a, &CA0, &CA1, bits, a0, a1);
-  mk_set(&B, &DB, ARRB.a, &CB0, &CB1, bits, b0, b1);      /* operands of |= and == have the same bit count (callers: sets over the same leaf positions) */
-  NALLOC = 0; NFREE = 0; ALLOC_BAD = 0; FREE_BAD = 0; verif_thrown = 0;
-  int oldG = abs_bit(&A, G), otherG = abs_bit(&B, G);
-  if (op == 0) {
-    CMStateSet_setBit(b);
-    VERIF_CANARY("after setBit");
-    if (b >= bits) __CPROVER_assert(verif_thrown && verif_throw_type == VT_ArrayIndexOutOfBoundsException, "C01: setBit beyond fBitCount raises ArrayIndexOutOfBoundsException");
-    else { __CPROVER_assert(!verif_thrown, "C01: setBit in range does not throw");
-           __CPROVER_assert(abs_bit(&A, G) == (oldG || G == b), "C07/C08: setBit(b) adds b to the set and changes no other member"); }
-  } else if (op == 1) {
-    bool r = CMStateSet_getBit(b);
-    if (b >= bits) __CPROVER_assert(verif_thrown && verif_throw_type == VT_ArrayIndexOutOfBoundsException, "C01: getBit beyond fBitCount raises ArrayIndexOutOfBoundsException");
-    else __CPROVER_assert(!verif_thrown && (r != 0) == (abs_bit(&A, b) != 0), "C07/C08: getBit(b) tells whether b is in the set");
-  } else if (op == 2) {
-    CMStateSet_zeroBits();
-    __CPROVER_assert(!verif_thrown && abs_bit(&A, G) == 0 && abs_empty(&A), "C07/C08: zeroBits empties the set");
-    __CPROVER_assert(!FREE_BAD, "C01: zeroBits releases allocated chunks only");
-  } else if (op == 3) {
-    bool r = CMStateSet_isEmpty();
-    __CPROVER_assert(!verif_thrown && (r != 0) == (abs_empty(&A) != 0), "C07/C08: isEmpty iff no bit is set");
-  } else if (op == 4) {
-    CMStateSet_orAssign(&B);
-    __CPROVER_assert(!verif_thrown && abs_bit(&A, G) == (oldG || otherG), "C07/C08: operator|= is set union");
-    __CPROVER_assert(abs_bit(&B, G) == otherG, "C07/C08: operator|= leaves its operand unchanged");
-  } else if (op == 5) {
-    bool r = CMStateSet_equals(&B);
-    if (r) __CPROVER_assert(abs_bit(&A, G) == abs_bit(&B, G), "C07/C08: sets that compare equal have the same members");
+  _Bool dyn, present[NCH]; XMLSize_t bits, b, g;
+  VERIF_INPUT(SELF); VERIF_INPUT(CH); VERIF_INPUT(dyn); VERIF_INPUT(bits); VERIF_INPUT(b); VERIF_INPUT(g);
+  if (!dyn) {
+    VERIF_ASSUME(bits >= 1 && bits <= CMSTATE_CACHED_INT32_SIZE * 32);
+    fDynamicBuffer = 0;
   } else {
-    VERIF_ASSUME(start <= end && end <= bits);
-    XMLSize_t r = CMStateSet_getBitCountInRange(start, end);
-    __CPROVER_assert(!verif_thrown && r <= bits + 32 * CMSTATE_BITFIELD_INT32_SIZE * NARR, "C01: getBitCountInRange stays inside the representation");
+    VERIF_ASSUME(bits > CMSTATE_CACHED_INT32_SIZE * 32 && bits <= NCH * CMSTATE_BITFIELD_CHUNK);
+    DYN.fArraySize = bits / CMSTATE_BITFIELD_CHUNK + ((bits % CMSTATE_BITFIELD_CHUNK) ? 1 : 0);     /* as the constructor computes it */
+    DYN.fBitArray = BITARR;
+    for (XMLSize_t k = 0; k < NCH; k++) { VERIF_INPUT(present[k]); BITARR[k] = (present[k] && k < DYN.fArraySize) ? CH.c[k].w : (XMLInt32 *)0; }
+    fDynamicBuffer = &DYN;
   }
-  __CPROVER_assert(!ALLOC_BAD, "C01: chunks are requested with the chunk size, at most one per missing chunk");
+  fBitCount = bits;
+  VERIF_ASSUME(g < bits);
+  POOL_USED = 0; verif_thrown = 0;
+
+  int before_g = SPEC_BIT(g);
+  bool gb = CMStateSet_getBit(b);
+  VERIF_CANARY("after getBit");
+  if (b >= bits) __CPROVER_assert(verif_thrown && verif_throw_type == VT_ArrayIndexOutOfBoundsException, "C01: getBit beyond the bit count throws ArrayIndexOutOfBoundsException");
+  else __CPROVER_assert(!verif_thrown && gb == (SPEC_BIT(b) != 0), "C01: getBit reads the bit of the representation");
+
+  verif_thrown = 0;
+  CMStateSet_setBit(b);
+  VERIF_CANARY("after setBit");
+  if (b >= bits) __CPROVER_assert(verif_thrown && verif_throw_type == VT_ArrayIndexOutOfBoundsException, "C01: setBit beyond the bit count throws ArrayIndexOutOfBoundsException");
+  else {
+    __CPROVER_assert(!verif_thrown && SPEC_BIT(b) == 1, "C01: setBit sets the bit");
+    if (dyn && POOL_USED == 1) VERIF_CANARY("setBit: chunk allocated on demand reachable");
+  }
+  if (g != b) __CPROVER_assert(SPEC_BIT(g) == before_g, "C01: setBit leaves every other bit alone");
+
+  verif_thrown = 0;
+  bool e1 = CMStateSet_isEmpty();
+  VERIF_CANARY("after isEmpty");
+  if (e1) __CPROVER_assert(SPEC_BIT(g) == 0, "C01: an empty set has no bit set");
+  if (b < bits) __CPROVER_assert(!e1, "C01: a set with a bit set is not empty");
+  XMLSize_t h = CMStateSet_hashCode();
+  VERIF_CANARY("after hashCode");
+
+  CMStateSet_zeroBits();
+  VERIF_CANARY("after zeroBits");
+  __CPROVER_assert(SPEC_BIT(g) == 0, "C01: zeroBits clears every bit");
+  __CPROVER_assert(CMStateSet_isEmpty(), "C01: the set is empty after zeroBits");
 }
